@@ -20,7 +20,7 @@ for d in diffs:
             if c.returncode != 0:
                 lines = [l for l in c.stdout.splitlines() if l.startswith(("REPORT", "ANALYSIS-ERROR"))]
                 out.append(f"   {p} exit={c.returncode} " + (lines[0][:230] if lines else ""))
-                bad += c.returncode == 1
+                bad += 1
         print(d.replace("/verif/seeded_benign/", ""), "OK" if not out else "")
         for o in out:
             print(o)
